@@ -21,7 +21,13 @@ RULE = ("patterns = every sequence of <= 4 pieces over {abc, a.c, :x, :y?, :r*, 
         "of <= 2 pieces; thorough: n=5 for all (19608 paths per pattern, exhaustive); plus paths without leading slash, "
         "with newlines, unicode; tables: subsets of <= 3 routes from a pool of 14 overlapping (method, pattern) pairs in "
         "every registration order (thorough: all subsets) x 7 methods x 18 paths, rate-limited or not; non-trivial = the "
-        "pattern compiles and the path matches, or (explicit pairs) shares its first segment with the pattern")
+        "pattern compiles and the path matches, or (explicit pairs) shares its first segment with the pattern; "
+        "HISTORIES on one long-lived router: routes registered one registerRoutes call at a time, as Route lists and as "
+        "Resource subclasses built with the @get/@put/@post/@delete decorators (registration order = definition order), "
+        "AFTER requests were already served; the same queries (including paths the new route matches) asked before and "
+        "after every registration through getRoute AND dispatch, several requests per client address through the real "
+        "rate limiter (below its limit), a second router alive in the same process; percent-encoded segments (%2F, %2e, "
+        "%61bc) in the path alphabet of the random pairs and of the table queries (the router matches the text as it is)")
 ASSUMPTIONS = ["request paths contain no newline (premise no_nl of C16_match_spec; an HTTP request line cannot hold one)",
                "?, * and + parameters only in the last segment (the documented grammar; premise wf_pat)"]
 TRUSTED = ["CPython's re module is trusted to parse the generated expression text into the syntax tree printed by the model "
@@ -245,6 +251,171 @@ def impl_get_route(rt, method, path):
     return [[endpt.rid, enc_dict(d)]]
 
 
+# ---------------------------------------------------------------- histories on one long-lived router
+
+PCT_SEGS = ["%61bc", "a%2Fb", "%2e%2e", "abc%2F", "%2F", "abc%2fx", "%41BC", "a%2ec"]
+QPATHS_PCT = ["/%61bc", "/abc%2Fx", "/abc/%2e%2e", "/abc/a%2Fb", "/abc%2F", "/a%2ec/v", "/abc/x%2Fy/z", "/%2F", "/abc/%00"]
+HDRS = {b"Content-Length": [b"0"]}
+
+
+def sample_path(pcs, r):
+    """a path the pattern is meant to match (by construction from its pieces), sometimes spoiled"""
+    out = ""
+    for kind, name in pcs:
+        if kind == "lit":
+            out += "/" + name
+        elif kind == "one":
+            out += "/" + r.choice(["x", "abc", "a.c", "%2e%2e"])
+        elif kind == "opt":
+            out += r.choice(["", "/", "/x", "/x/"])
+        elif kind == "star":
+            out += r.choice(["", "/", "/x", "/x/y", "//x"])
+        else:
+            out += r.choice(["/x", "/x/y", "/x/"])
+    c = r.random()
+    if c < 0.15:
+        out += "/"
+    elif c < 0.25:
+        out += "def"
+    elif c < 0.3:
+        out = out[:-1]
+    return out
+
+
+def build_resource(group, box):
+    """a Resource subclass written the way a user writes one: decorated methods in definition order.
+    group: [(method, pattern, id)] with methods GET/PUT/POST/DELETE"""
+    import mpgameserver.http_server as H
+    src = ["class R%dResource(Resource):" % group[0][2]]
+    for (m, p, i) in group:
+        src.append("    @%s(%r)" % (m.lower(), p))
+        src.append("    def h%d(self, request):" % i)
+        src.append("        return hit(%d, request)" % i)
+
+    def hit(i, request):
+        box.hit = (i, dict(request.matches))
+        return H.JsonResponse({"id": i}, 200)
+    ns = {"Resource": H.Resource, "get": H.get, "put": H.put, "post": H.post, "delete": H.delete, "hit": hit}
+    exec("\n".join(src), ns)
+    res = ns["R%dResource" % group[0][2]]()
+    for route in res.routes():
+        route.rid = int(route.name.rsplit(".h", 1)[1])
+    return res
+
+
+def impl_dispatch_ip(rt, box, method, path, ip):
+    """dispatch through the router's own rate limiter"""
+    from mpgameserver.http_server import Request
+    box.hit = None
+    req = Request((ip, 4000), method, path, {}, "", dict(HDRS), io.BytesIO(b""))
+    resp = rt.dispatch(req)
+    if resp.status_code == 200 and box.hit is not None:
+        return [200, box.hit[0], enc_dict(box.hit[1])]
+    return [resp.status_code]
+
+
+def doc_valid(m, p, by_resource):
+    pcs = pieces_of(p)
+    return sum(1 for k_, _ in pcs if k_ in ("opt", "star", "plus")) <= 1 and (by_resource or m in ("GET", "POST", "PUT", "DELETE"))
+
+
+def histories(run, violation):
+    from mpgameserver.http_server import Route, JsonResponse
+    M, r = run.model, run.rng
+    margs, mimpl, mcases = [], [], []
+    nh = 2500 if run.thorough() else 160
+    other = build_router([("GET", "/abc/:x", 900), ("POST", "/:r*", 901)])      # a second router alive in the process
+    for hi in range(nh):
+        rt = new_router()
+        box = Box()
+        order = r.sample(range(len(POOL)), r.randrange(2, 6))
+        # split the order into registration calls: single Route lists, or Resources of 1-3 decorated methods
+        calls, i = [], 0
+        while i < len(order):
+            k = r.choice([1, 1, 2, 3])
+            grp = [(POOL[j][0], POOL[j][1], j) for j in order[i:i + k]]
+            kind = "resource" if r.random() < 0.5 and all(g[0] in ("GET", "POST", "PUT", "DELETE") for g in grp) else "routes"
+            calls.append((kind, grp))
+            i += k
+        table = []          # the documented table so far: [(method, pieces, id, pattern)]
+        log = []
+        ipn = [0, fresh_ip()]
+
+        def ask(qs, when):
+            res = []
+            for (m, q) in qs:
+                ipn[0] += 1
+                if ipn[0] % 3 == 0:
+                    ipn[1] = fresh_ip()         # at most three requests per client address: below the limit of 5
+                g = impl_get_route(rt, m, q)
+                d = impl_dispatch_ip(rt, box, m, q, ipn[1])
+                res.append([g, d])
+                exp = []
+                for (rm, pcs, i_, p_) in table:
+                    if rm == m:
+                        v = doc_match(pcs, q)
+                        if v is not None:
+                            exp = [[i_, enc_dict(doc_dict(pcs, v))]]
+                            break
+                run.evaluations += 1
+                case = {"history": log[-6:], "asked": when, "routes": [(x[0], x[3], x[2]) for x in table], "method": m, "path": q}
+                if all(documented(x[1]) for x in table):
+                    if g != exp:
+                        violation("first-match", dict(case, expected=lib.jsonable(exp), router=lib.jsonable(g)))
+                    want = [404] if not exp else [200] + exp[0]
+                    if d != want:
+                        violation("dispatch-status", dict(case, limited=False, expected=lib.jsonable(want), router=lib.jsonable(d)))
+                    if exp:
+                        run.nt(("hist", hi, len(log), m, q))
+            # the same state through the model: the routes registered so far as one table
+            margs.append([[[S(x[0]), S(x[3]), x[2]] for x in table], [[S(m), S(q), False] for (m, q) in qs]])
+            mimpl.append([lib.ok([]), res])
+            mcases.append(({"history": list(log), "asked": when}, len(qs)))
+            # the other router of the process is not disturbed
+            if impl_get_route(other[0], "GET", "/abc/x") != [[900, enc_dict({"x": "x"})]]:
+                violation("first-match", dict(case, note="a second Router instance of the process answers differently now"))
+
+        for kind, grp in calls:
+            qs = [(r.choice(QMETHODS[:4]) if r.random() < 0.85 else r.choice(QMETHODS), r.choice(QPATHS + QPATHS_PCT))
+                  for _ in range(3)]
+            for (m, p, i_) in grp:
+                qs.append((m if r.random() < 0.8 else r.choice(QMETHODS[:4]), sample_path(pieces_of(p), r)))
+            qs = [(m, q) for (m, q) in qs if "\n" not in q]
+            ask(qs, "before " + kind + repr([g[2] for g in grp]))
+            if kind == "resource":
+                reg = lib.guarded(lambda: rt.registerRoutes(build_resource(grp, box)), wrap=lambda x: [])
+            else:
+                def mk(i_):
+                    def cb(request):
+                        box.hit = (i_, dict(request.matches))
+                        return JsonResponse({"id": i_}, 200)
+                    return cb
+                objs = [Route("r%d" % i_, m, p, mk(i_)) for (m, p, i_) in grp]
+                for o, g in zip(objs, grp):
+                    o.rid = g[2]
+                reg = lib.guarded(lambda: rt.registerRoutes(objs), wrap=lambda x: [])
+            ok_all = True
+            for (m, p, i_) in grp:
+                if not doc_valid(m, p, kind == "resource"):
+                    ok_all = False
+                    break
+                table.append((m, pieces_of(p), i_, p))
+            log.append([kind, [(g[0], g[1], g[2]) for g in grp], "ok" if reg[0] == 0 else "raised"])
+            run.evaluations += 1
+            got_ids = [getattr(x, "rid", None) for x in rt.routes]
+            if (reg[0] == 0) != ok_all or got_ids != [x[2] for x in table]:
+                violation("first-match", {"history": log[-6:], "note": "registration outcome", "registerRoutes": reg,
+                                          "router_routes": got_ids, "expected_routes": [x[2] for x in table]})
+            ask(qs, "after " + kind + repr([g[2] for g in grp]))
+        run.count("histories")
+    mod = []
+    for i in range(0, len(margs), 200):
+        mod += M.call_many("router_table", margs[i:i + 200])
+    run.compare("router_history", mcases, mimpl, [[m[0], [[x[0], x[1]] for x in m[1]]] for m in mod])
+    run.count("history_queries", sum(c[1] for c in mcases))
+
+
+
 # ---------------------------------------------------------------- the run
 
 def run(run):
@@ -333,10 +504,11 @@ def run(run):
         for q in MAL_PATHS + small_paths:
             pairs.append((p, q))
     somep = all_patterns(3)
-    for _ in range(40000 if run.thorough() else 6000):
+    for it in range(40000 if run.thorough() else 6000):
         p = r.choice(somep)
         k = r.randrange(0, 7)
-        q = "".join("/" + r.choice(PSEGS + ["y", "a.cX", "é"]) for _ in range(k))
+        segs = PSEGS + ["y", "a.cX", "é"] + (PCT_SEGS if it % 4 == 0 else [])
+        q = "".join("/" + r.choice(segs) for _ in range(k))
         if r.random() < 0.1:
             q = q[1:]
         if r.random() < 0.05:
@@ -442,6 +614,7 @@ def run(run):
         if not run.thorough():
             qs = r.sample(qs, 30)
         qs += [("GET", "/abc/x", True), ("HEAD", "/abc", True)]
+        qs += [(m, q, False) for m in ("GET", "POST") for q in r.sample(QPATHS_PCT, 2)]
         res = []
         for (m, q, lim) in qs:
             g = impl_get_route(rt, m, q)
@@ -495,6 +668,9 @@ def run(run):
     run.compare("router_spec_get_route", sc, si, sm)
     run.sample({"unit": "router_table", "routes": tables[40], "query": ["GET", "/abc/x"],
                 "impl": lib.jsonable(impl_get_route(build_router(tables[40])[0], "GET", "/abc/x"))})
+
+    # ---- 5. histories: registration after requests were served, Resource classes, the real limiter
+    histories(run, violation)
 
     run.rules.append(RULE)
 
